@@ -39,9 +39,10 @@ func handleZADD(params internal.HandlerFuncParams) ([]byte, error) {
 	var changed interface{} = nil
 	var incr interface{} = nil
 
-	// Find the first valid score and this will be the start of the score/member pairs
+	// Find the first valid score and this will be the start of the score/member pairs.
+	// The search starts after the command name and the key, which may look like numbers themselves.
 	var membersStartIndex int
-	for i := 0; i < len(params.Command); i++ {
+	for i := 2; i < len(params.Command); i++ {
 		if membersStartIndex != 0 {
 			break
 		}
